@@ -178,6 +178,10 @@ static void *client_thread (void *arg) {
     return NULL;
 }
 
+#ifdef HC_TOY
+extern int toy_fail_at, toy_calls;      /* toy_prims.c: fail the k-th primitive call of the request */
+#endif
+
 /* ownership of the connection's descriptor: the request path must close it exactly once (a second close () hits whatever
  * connection has been given that number in the meantime - harmless in a sequential run, fatal to another client under load) */
 static int g_job_fd = -1, g_job_closes = 0;
@@ -209,8 +213,14 @@ static void do_req (char **w, int n) {
         struct timespec t0, t1; long ms;
         clock_gettime (CLOCK_MONOTONIC, &t0);
         g_job_closes = 0; g_job_fd = sv[0];
+#ifdef HC_TOY
+        toy_calls = 0; toy_fail_at = (v = kv (w + 3, n - 3, "pfail")) ? atoi (v) : 0;
+#endif
         _job_exec (m);                                 /* recv, process, send, destroy (closes sv[0]) */
         g_job_fd = -1; closes = g_job_closes;
+#ifdef HC_TOY
+        toy_fail_at = 0;
+#endif
         clock_gettime (CLOCK_MONOTONIC, &t1);
         ms = (t1.tv_sec - t0.tv_sec) * 1000 + (t1.tv_nsec - t0.tv_nsec) / 1000000;
         /* a stalled client must be dropped after the I/O timeout: not at once, not (much) later */
@@ -224,6 +234,9 @@ static void do_req (char **w, int n) {
     pthread_join (th, NULL);
     close (sv[1]);
     printf ("rsp="); hx_print (c.rsp, c.rsplen);
+#ifdef HC_TOY
+    if (kv (w + 3, n - 3, "pfail")) printf (" pcalls=%d", toy_calls);
+#endif
     free (c.req); free (c.rsp);
     leak = __lsan_do_recoverable_leak_check ();
     if (closes != 1) printf (" leak=%d connection-descriptor-closed-%d-times\n", leak ? 1 : 0, closes);
